@@ -1,2 +1,3 @@
 import EpsicDriver.Proto
 import EpsicDriver.OpsAlg
+import EpsicDriver.OpsAlias
